@@ -117,3 +117,37 @@ def version_pair_messages(rng, pair, compressed=False):
         out.append(R.build_message(ids, B, D, R.Policy(rng), 2 if compressed else 1, compressed, 4,
                                    dict(master_table_version=v)))
     return ids, out
+
+
+def local_sensitive_pairs():
+    """[(element id, (centre, subcentre, local version A), (.., local version B))]: the element's
+    (scale, reference, width) differ between two bundled local table versions of one centre."""
+    from mon.refbufr.rtables import load_dir
+    import collections
+    by = collections.defaultdict(list)
+    for ce, su, lv, p in R.local_table_dirs():
+        by[(ce, su)].append((lv, p))
+    out = []
+    for (ce, su), v in by.items():
+        for i, (la, pa) in enumerate(v):
+            Ba, _ = load_dir(pa)
+            for lb, pb in v[i + 1:]:
+                Bb, _ = load_dir(pb)
+                for e in sorted(Ba):
+                    if e in Bb and Ba[e][2:5] != Bb[e][2:5] and e // 1000 not in (0, 31, 33) and \
+                            R.kind_of(Ba[e][1]) == R.kind_of(Bb[e][1]) and max(Ba[e][4], Bb[e][4]) <= 32:
+                        out.append((e, (ce, su, la), (ce, su, lb)))
+    return out
+
+
+def local_pair_messages(rng, pair, compressed=False, mtv=33):
+    """two messages with identical descriptor lists and master version under two local table versions"""
+    e, la, lb = pair
+    ids = [1001, e, 12001, e]
+    out = []
+    for ce, su, lv in (la, lb):
+        B, D = R.load_tables(0, ce, su, mtv, lv)
+        out.append(R.build_message(ids, B, D, R.Policy(rng), 2 if compressed else 1, compressed, 4,
+                                   dict(master_table_version=mtv, originating_centre=ce, originating_subcentre=su,
+                                        local_table_version=lv)))
+    return ids, out
